@@ -67,7 +67,7 @@ def _cargo(args, cwd, what):
 
 def build_harness():
     with _Lock("harness"):
-        return _cargo(["build", "--release", "--offline", "-q"], os.path.join(ROOT, "harness"), "harness (vh)")
+        return _cargo(["build", "--release", "--offline", "-q", "--target-dir", os.path.join(TARGET, "harness")], os.path.join(ROOT, "harness"), "harness (vh)")
 
 
 def build_bins():
